@@ -106,10 +106,15 @@ def gen_plan(rng, prof):
     runs = []
     if rng.random() < prof.multi_run and n >= 1:
         # an earlier run of the same experiment: a prefix of the plan, ended normally or aborted half-way
-        k = rng.randint(1, n)
+        late = getattr(prof, "abort_late", False)
+        k = rng.randint(max(1, n - 1), n) if late else rng.randint(1, n)
         first = [["submit", j] for j in order[:k]]
         if rng.random() < prof.p_abort:
-            runs.append({"actions": first, "end": "exception", "abort_after": rng.randint(1, len(first))})
+            # abort_late: the block raises after its last submissions, so that earlier jobs had time to be launched
+            runs.append({"actions": first, "end": "exception", "abort_after": len(first) if late else rng.randint(1, len(first))})
+            if late:
+                runs[-1]["lazy_actions"] = 0.8
+                runs[-1]["abort_delay"] = rng.randint(0, 5)
         else:
             runs.append({"actions": first, "end": "normal"})
     run = {"actions": actions, "end": "normal", "resubmitted": resub}
@@ -119,7 +124,7 @@ def gen_plan(rng, prof):
         cands = [j for j in first if any(d["on"] == j for k in range(n) for d in jobs[k]["deps"])] or first
         c = rng.choice(cands)
         run["clean_before"] = [c]
-        if jobs[c]["codes"] == [0] and rng.random() < 0.6:
+        if jobs[c]["codes"] == [0] and rng.random() < (0.95 if getattr(prof, "abort_late", False) else 0.6):
             jobs[c]["codes"] = [0, rng.choice([1, 3])]
     plan = {"jobs": jobs, "tokens": tokens, "runs": runs + [run]}
     if tokens and rng.random() < prof.foreign:
